@@ -118,11 +118,18 @@ def main(tier):
                             run.report(None, 'drows-dot-%d' % cid, dict(payload, format='dot', output=o.get('out'), api_rows=wantdot, parsed_rows=gotdot),
                                        'the diff dot output does not encode exactly the diff entries (incl. unchanged)')
                             ok = False
+                        if ok and o.get('out'):
+                            gotn, wantn = fmt.parse_dot_nodes(o['out']), fmt.api_diff_nodes(o)
+                            badn = [s for s in wantn if gotn.get(s) != [wantn[s]]] + [s for s in gotn if s not in wantn]
+                            if badn:
+                                run.report(None, 'dnodes-dot-%d' % cid, dict(payload, format='dot', output=o.get('out'), peer=badn[0], expected=wantn.get(badn[0]), found=gotn.get(badn[0])),
+                                           'the diff dot output does not declare every peer of the diff exactly once with its label and new/lost colour')
+                                ok = False
                     if ok:
                         rn = lambda s: s
                         dcases.append('(mkDFmt %s %s %s %s %s)' % (cnat(cid), c04.c_diff(dt, rn), cstr(do['txt'].get('out', '')), cstr(do['md'].get('out', '')), cstr(do['csv'].get('out', ''))))
             # exposure sections: every format must hold exactly the exposure entries of the API result
-            xw = [(k + i, c06.gen_case(run.rng)) for i in range(max(4, len(metas) // 2))]
+            xw = [(k + i, c06.ip_only_world(run.rng) if i % 4 == 3 else c06.gen_case(run.rng)) for i in range(max(4, len(metas) // 2))]
             xcmds = []
             for cid, W in xw:
                 dx = h.dir_for('x%d' % cid)
@@ -139,9 +146,14 @@ def main(tier):
                 want_rows, want_unprot = fmt.api_exposure_rows(xo['txt'])
                 if len(want_rows) >= 3:
                     run.nontrivial(['exposure', W])
-                # distinct API entries must be told apart in the output
+                # distinct API entries must be told apart in the output; the printed connection holds the API's port numbers
                 for x in xo['txt'].get('exposure') or []:
                     for d in ('ingress', 'egress'):
+                        for e in x[d]:
+                            if not fmt.exposure_conn_consistent(e):
+                                run.report(None, 'xconn-%d' % cid, dict(payload, workload=x['peer'], direction=d, entry=e),
+                                           'the printed connection of an exposure entry does not hold exactly the port numbers of its ProtocolsAndPortsMap()')
+                                break
                         names = [fmt.render_rep(e['ns_sel'], e['pod_sel']) for e in x[d] if not e['cluster']]
                         if len(set(names)) != len(names):
                             run.report(None, 'xnames-%d' % cid, dict(payload, workload=x['peer'], direction=d, entries=x[d]), 'two different exposure entries are printed under the same name')
@@ -212,6 +224,15 @@ def replay(payload):
         p1 = h.dir_for('a')
         gen.write_dir(p1, payload['manifests'])
         f = payload.get('format', 'txt')
+        if payload.get('kind') == 'exposure-format':
+            o = h.run([{'id': 'x', 'cmd': 'list', 'dir': p1, 'format': 'txt', 'exposure': True, 'want_out': True}])[0]
+            run.count(1)
+            if o['outcome'] == 'ok':
+                rows, unprot = fmt.api_exposure_rows(o)
+                bad = [e for x in o.get('exposure') or [] for d in ('ingress', 'egress') for e in x[d] if not fmt.exposure_conn_consistent(e)]
+                if bad or fmt.parse_exposure_txt(o.get('out', '')) != (rows, unprot):
+                    run.report(None, 'replay', payload, 'the exposure section does not encode the exposure result')
+            return run.finish()
         o = h.run([{'id': 'l', 'cmd': 'list', 'dir': p1, 'format': f, 'want_out': True}])[0]
         run.count(1)
         if o['outcome'] == 'ok' and f in fmt.LIST_PARSERS and fmt.LIST_PARSERS[f](o['out']) != fmt.api_rows(o):
